@@ -764,6 +764,8 @@ def constbound_cases(draw, tier):
     c = draw(punctual_cases(tier))
     c['k2'] = c['k'] + draw(st.integers(0, 3))
     c['mode'] = draw(st.sampled_from(['offline', 'online', 'pastified']))
+    # declare_const() is handed a Python number instead of a text (when the shortest decimal of the float is the number meant)
+    c['as_number'] = draw(st.booleans())
     return c
 
 
@@ -787,14 +789,24 @@ def check_constbound(case):
     kw = dict(unit=case['unit'], period=(pv, pu, 0.1))
     tcol = time_column(3, pn, case['unit'])
     outs = []
-    for text, consts in ((lit, None), (con, [('kb', 'float', ta)])):
+    val = ta
+    if case.get('as_number'):
+        from decimal import Decimal
+        try:
+            num = int(ta) if '.' not in ta else float(ta)
+            if Decimal(repr(num)) == Decimal(ta):
+                val = num
+                labels.append('constant-given-as-python-number')
+        except (ValueError, ArithmeticError):
+            pass
+    for text, consts in ((lit, None), (con, [('kb', 'float', val)])):
         if mode == 'offline':
             o = run_dt_off(text, ['x'], tr, time=tcol, consts=consts, **kw)
             o = ('ok', [p[1] for p in o[1]]) if o[0] == 'ok' else o
         else:
             o = run_dt_on(text, ['x'], tr, time=tcol, consts=consts, pastify=(mode == 'pastified'), **kw)
         outs.append(o)
-    desc = 'sampling period %s%s, default unit %s, %s\nliteral:  %s\nconstant: %s  with const kb = %s\ntrace: %s' % (pv, pu, case['unit'], mode, lit, con, ta, tr)
+    desc = 'sampling period %s%s, default unit %s, %s\nliteral:  %s\nconstant: %s  with const kb = %r\ntrace: %s' % (pv, pu, case['unit'], mode, lit, con, val, tr)
     if outs[0][0] != 'ok':
         return DISCARD('literal-raises(C17):' + outs[0][1], labels)
     if outs[1][0] != 'ok':
